@@ -195,6 +195,36 @@ pub fn gen(tier: &str, seed: u64, out: &mut dyn FnMut(Value)) {
             out(json!({"op": "scenario", "rules": [r.to_json(&mut rng)], "events": evj3, "tag": "prefix selection, names beyond identifiers", "nt": true}));
         }
     }
+    // operand names and prefixes that contain the grammar's own words: `of`, `them`, `all`, `any`, `none`, `not`, `and`, `or`
+    {
+        let names4: [(&str, &str); 8] = [("$office", "f0"), ("$prof_1", "f1"), ("$of", "f2"), ("$them", "f3"), ("$microsoft", "f4"), ("$notand", "f5"), ("$orall", "f6"), ("$anynone", "f7")];
+        let ops4: Vec<(String, Operand)> = names4.iter().map(|(n, f)| (n.to_string(), Operand::Test { segs: vec![f.to_string()], op: 0, lit: Lit::sq("1") })).collect();
+        let events4: Vec<DynEvent> = (0..(1u32 << 8))
+            .map(|m| DynEvent {
+                source: "s".into(),
+                id: 1,
+                fields: (0..8).map(|i| (vec![names4[i].1.to_string()], gene::FieldValue::String(if m & (1 << i) != 0 { "1".into() } else { "0".into() }))).collect(),
+            })
+            .collect();
+        let evj4: Vec<Value> = events4.iter().map(event_to_json).collect();
+        for g in ["$of", "$off", "$office", "$prof", "$prof_", "$microsoft", "$micro", "$them", "$the", "$not", "$or", "$any", "$o"] {
+            let g = Some(g.to_string());
+            let mut fs = vec![Form::All(g.clone()), Form::Any(g.clone()), Form::NoneOf(g.clone())];
+            for n in [0u64, 1, 2, 3] {
+                fs.push(Form::N(n, g.clone()));
+            }
+            for f in with_neg(fs) {
+                let r = SRule { name: "r".into(), ops: ops4.clone(), cond: Some(f.clone()), ..Default::default() };
+                out(json!({"op": "scenario", "rules": [r.to_json(&mut rng)], "events": evj4, "tag": "prefixes containing the grammar's words", "nt": true}));
+            }
+        }
+        for v in ["$office", "$of", "$them", "$notand", "$orall", "$anynone"] {
+            for f in with_neg(vec![Form::V(v.to_string())]) {
+                let r = SRule { name: "r".into(), ops: ops4.clone(), cond: Some(f.clone()), ..Default::default() };
+                out(json!({"op": "scenario", "rules": [r.to_json(&mut rng)], "events": evj4[..64], "tag": "operand names containing the grammar's words", "nt": true}));
+            }
+        }
+    }
     // an operand may be another rule's verdict: it is one operand like any other, counted once
     {
         let dep_true = SRule { name: "dep".into(), ty: Some("dependency".into()), ops: vec![("$d".into(), Operand::Test { segs: vec!["a".into()], op: 0, lit: Lit::sq("1") })], cond: Some(Form::V("$d".into())), ..Default::default() };
